@@ -84,7 +84,10 @@ def make_gp(rng, d, bounds, n):
     names = ['t%d' % i for i in range(d)]
     X = np.array([[rng.uniform(lo, hi) for lo, hi in bounds] for _ in range(n)])
     y = np.sum((X - 0.3) ** 2, axis=1) + 0.05 * np.array([rng.gauss(0, 1) for _ in range(n)]) + 0.2
-    gp = GPyRegression(names, bounds=dict(zip(names, bounds)), max_opt_iters=30)
+    items = list(zip(names, bounds))
+    if rng.random() < .5:
+        items = items[::-1]                          # dictionary order is not parameter order
+    gp = GPyRegression(names, bounds=dict(items), max_opt_iters=30)
     gp.update(X, y, optimize=True)
     return gp
 
@@ -323,7 +326,7 @@ def run_bo(case, client, sched=None):
         if case['acq'] != 'lcbsc':
             kw = {}
         bo = elfi.BayesianOptimization(m['d'], batch_size=b, initial_evidence=pre if pre is not None else case['n_init'],
-                                       update_interval=case['update_interval'], bounds=dict(zip(names, bounds)),
+                                       update_interval=case['update_interval'], bounds=dict(list(zip(names, bounds))[::-1] if case['seed'] % 2 else zip(names, bounds)),
                                        acq_noise_var=case['noise'], batches_per_acquisition=case['bpa'], seed=case['seed'],
                                        max_parallel_batches=case.get('mpb', 1), pool=pool)
         bo.target_model.max_opt_iters = 30
